@@ -41,5 +41,8 @@ register(
         "the assignment solver's answers enter as an oracle; theorems hold for every oracle",
         "L2 proofs C01 (index accounting), C02 (zero_cost_iff_eq, eq_iff_dataEq), C03 (reported_eq_sum)",
     ],
-    partial="",
+    partial="the theorems are about the colour (ANSI-mark) rendering; the plain-text rendering (~~removed~~, ++inserted++, old -> new: the default "
+            "when the output is not a terminal) has no model and no theorem: it is decided on the real code only, by the plain-text pass of the "
+            "render stream (parse_plain reads both documents back from the in-band text), and only for documents none of whose strings and keys "
+            "contains `~` or `+` (outside that domain the in-band format is inherently ambiguous and nothing is claimed)",
 )
